@@ -646,8 +646,8 @@ func explain(m *MRepo, o *obs, extra *MRepo, k Knobs) []string {
 				diffs = append(diffs, fmt.Sprintf("taglist must be %q, is %q", want, val))
 			}
 		case "refs":
-			if unsureAny || !k.referrerOn() {
-				continue
+			if unsureAny || !k.referrerOn() || k.RefLimit > 0 {
+				continue // (with a response limit single entries that cannot fit are left out: judged by the referrers oracles)
 			}
 			must, may := m.referrers(d)
 			if m.respLost[d] || (extra != nil && extra.respLost[d]) {
